@@ -1189,7 +1189,7 @@ class Processor:
                         ancestry + [(data, intmin)], pathseg)
 
             elif isinstance(data, dict):
-                for key, val in data.items():
+                for key, val in list(data.items()):
                     if min_match <= str(key) <= max_match:
                         yield NodeCoords(
                             val, data, key,
@@ -1198,7 +1198,7 @@ class Processor:
                             ancestry + [(data, key)], pathseg)
 
             elif isinstance(data, (CommentedSet, set)):
-                for ele in data:
+                for ele in list(data):
                     if min_match <= str(ele) <= max_match:
                         yield NodeCoords(
                             ele, data, ele,
@@ -1304,7 +1304,7 @@ class Processor:
                                 next_ancestry, pathseg)
                             break
 
-            for key, val in data.items():
+            for key, val in list(data.items()):
                 next_ancestry = ancestry + [(data, key)]
                 if (hasattr(key, "anchor")
                         and stripped_attrs == key.anchor.value):
@@ -1317,7 +1317,7 @@ class Processor:
                         val, data, key, next_translated_path,
                         next_ancestry, pathseg)
         elif isinstance(data, (CommentedSet, set)):
-            for ele in data:
+            for ele in list(data):
                 if (hasattr(ele, "anchor")
                         and stripped_attrs == ele.anchor.value):
                     yield NodeCoords(ele, data, ele, next_translated_path,
@@ -1462,7 +1462,7 @@ class Processor:
                 self.logger.debug(
                     "Scanning every key's name...",
                     prefix="Processor::_get_nodes_by_search:  ")
-                for key, val in data.items():
+                for key, val in list(data.items()):
                     matches = Searches.search_matches(method, term, key)
                     if (matches and not invert) or (invert and not matches):
                         debug_matched = "one dictionary key name match yielded"
@@ -1537,7 +1537,7 @@ class Processor:
                         pathseg)
 
         elif isinstance(data, (CommentedSet, set)):
-            for ele in data:
+            for ele in list(data):
                 matches = Searches.search_matches(method, term, ele)
 
                 if (matches and not invert) or (invert and not matches):
@@ -1946,7 +1946,7 @@ class Processor:
                 return
 
             if isinstance(data, (CommentedMap, dict)):
-                for key, val in data.items():
+                for key, val in list(data.items()):
                     next_translated_path = (
                         translated_path + YAMLPath.escape_path_section(
                             key, translated_path.separator))
@@ -2031,7 +2031,7 @@ class Processor:
 
             # Then, recurse into each child to perform the same test.
             if isinstance(data, dict):
-                for key, val in data.items():
+                for key, val in list(data.items()):
                     self.logger.debug(
                         "Processor::_get_nodes_by_traversal:  Recursing into"
                         " KEY '{}' at ref '{}' for next-segment matches..."
@@ -2198,7 +2198,7 @@ class Processor:
             self.logger.debug(
                 "Iterating over all keys to find ANY matches in data:",
                 prefix=dbg_prefix, data=data)
-            for key, val in data.items():
+            for key, val in list(data.items()):
                 next_translated_path = (
                     translated_path + YAMLPath.escape_path_section(
                         key, translated_path.separator))
